@@ -330,7 +330,7 @@ def run(tier):
     tablecheck.report_tables(rep, res, {ts.C + t for t in cr.CONTEXT_TABLES}, rule="L5")
     n = l4.check_predicates(prog, rep, cr.CONTEXT_PREDICATES)
     rep.floor("L4 predicates (context)", n, 10)
-    common.lookup_sites(prog, rep, floor=6)
+    common.lookup_sites(prog, rep)
     tabs, _ = tables.all_tables(prog)
     jt = {t: ucd.mask_from_rows(tabs.get(ts.C + t, [])) for t in ("DUAL_JOINING", "LEFT_JOINING", "RIGHT_JOINING", "TRANSPARENT")}
     names = sorted(jt)
